@@ -58,13 +58,15 @@ def _unit(maxn, bounded=False):
     log.append(dict(pattern="initialize(): text before the node loop and the final call", replacement="", fired=1, expected=1, kind="drop",
                     note="dist / pred vectors and maps, the lex_dijkstra call (its contract is the precondition), compute_first_in_path() (own unit)"))
     body = body[i:j]
+    body = X.drop_local_const(body, log)
+    body = X.canon(body, [(r"VertexIt (\w+), (\w+);", ["vi", "viend"])], log)
     body = X.rewrite(body, [
         (r"VertexIt vi, viend;", "size_t vi, viend;", 1, "container-api", ""),
         (r"boost::tie\(vi, viend\) = boost::vertices\(_g\)", "vi = 0, viend = vp_n", 2, "container-api", "vertex range = ordinals"),
         (r"auto v = \*vi;", "size_t v = vi;", 2, "container-api", ""),
         (r"auto (\w+) = _index_map\[(\w+)\];", r"size_t \1 = \2;", 3, "container-api", "index map = identity"),
         (r"auto p = boost::get\(pred_map, v\);", "", 2, "container-api", "the tuple p is read through PREDF / PREDE"),
-        (r"std::get<0>\(p\)", "PREDF[v]", 2, "container-api", ""),
+        (r"std::get<0>\(p\)", "PREDF[v]", (2, 3), "container-api", ""),
         (r"(?:Edge|auto) e = std::get<1>\(p\);", "size_t e = PREDE[v];", 2, "container-api", ""),
         (r"v == _source", "v == vp_source", 1, "type-binding", ""),
         (r"_tree_node_map\[vindex\] = std::shared_ptr<SPNode<Graph, WeightMap>>\(\s*new SPNode<Graph, WeightMap>\(v, dist\[vindex\]\)\);",
